@@ -467,6 +467,27 @@ def doc_eq(a, b):
     return a == b
 
 
+def pure_json(j):
+    """The first clause of C05 on the real output: built from dict/list/str/int/float/bool/None only (subclasses as
+    json.dumps and the reifier see them: typedpy's list/dict wrappers are lists/dicts; enum members, deques, sets,
+    tuples, Decimals, dates, Structures are not), floats finite, keys scalars."""
+    import math
+    if j is None or isinstance(j, bool):
+        return True
+    if isinstance(j, enum.Enum):
+        return False
+    if isinstance(j, (str, int)):
+        return True
+    if isinstance(j, float):
+        return math.isfinite(j)
+    if isinstance(j, list):
+        return all(pure_json(x) for x in j)
+    if isinstance(j, dict):
+        return all((k is None or (isinstance(k, (str, int, float, bool)) and not isinstance(k, enum.Enum))) and pure_json(x)
+                   for k, x in j.items())
+    return False
+
+
 def json_kind(j):
     if j is None:
         return "null"
@@ -506,10 +527,13 @@ def distinguishable(f, v, ctx, rejections=None):
         read = True
         try:
             xg = Tg(f=got)
-            witness = json_kind(Serializer(xg).serialize().get("f")) == json_kind(j)
             w = xg.__dict__.get("f")
-        except Exception:  # noqa
+        except Exception:  # noqa     the option does not accept what it read: no claim
             continue
+        try:
+            witness = json_kind(Serializer(xg).serialize().get("f")) == json_kind(j)
+        except Exception:  # noqa     it accepts the value but cannot serialize it (F22...): the kinds cannot be compared; a claim
+            witness = True
         if witness and not loose_eq(w, stored):
             return False
     return True
